@@ -1627,3 +1627,51 @@ def l_units( ctx ):
     if n_lim < 3 or n_len < 3:
         raise AnalysisError( 'L-UNITS: %d limit closures over a size field, %d word-counted payload lengths found' % ( n_lim, n_len ))
     return res
+
+
+@rule( 'L-STATUSDATA', props=( 'C14', 'C01' ), floor=6 )
+def l_statusdata( ctx ):
+    """the general statuses under which a reply carries data are those of the specification, on both sides: Read Tag / Read Tag Fragmented
+    replies carry type and data under 0x00 AND under 0x06 ( partial transfer: an independent client continues from the octets it received ),
+    a Multiple Service Packet reply carries its members under 0x00 and 0x1E.  The predicate of the reply grammar's `decide` and the status
+    test of the producer's branch are evaluated for every status 0..255 and compared with the table - a producer and a parser narrowed
+    together still agree with each other."""
+    res = Result( 'L-STATUSDATA' )
+    for ( rel, gfn, pqn, svc ), want in sorted( spec.STATUS_WITH_DATA.items()):
+        src = ctx.src( rel )
+        want = sorted( want )
+        # parser side
+        g = src.get( gfn )
+        preds = [ k.value for c in ast.walk( g ) if isinstance( c, ast.Call ) and is_call_to( c, 'decide' ) for k in c.keywords
+                  if k.arg == 'predicate' and isinstance( k.value, ast.Lambda ) and 'status' in ast.unparse( k.value.body ) ]
+        if len( preds ) != 1:
+            raise AnalysisError( '%s: %d status predicates' % ( gfn, len( preds )))
+        def accepted( e, env_of ):
+            out = []
+            for v in range( 256 ):
+                try:
+                    if fold( e, env_of( v )):
+                        out.append( v )
+                except NoFold as exc:
+                    raise AnalysisError( '%s: status test not foldable: %s' % ( gfn, exc ))
+            return out
+        got = accepted( preds[0].body, lambda v: { 'data': { 'status': v }, 'path': None } )
+        if got == want:
+            res.ok( src, preds[0], '%s: the reply grammar expects data under status %s' % ( gfn, ', '.join( '0x%02X' % v for v in got )))
+        else:
+            res.bad( src, preds[0], '%s: the reply grammar expects data under status %s' % ( gfn, ', '.join( '0x%02X' % v for v in got ) or 'none' ),
+                     'specified: %s - a reply of a conformant device with the other status is parsed without its type and data ( left unconsumed )' % ', '.join( '0x%02X' % v for v in want ), func=gfn )
+        # producer side: the branch of the reply service, and the status test inside it
+        p = src.get( pqn )
+        br = [ i for i in ast.walk( p ) if isinstance( i, ast.If ) and svc in attrs_in( i.test ) ]
+        tests = [ j for i in br for b in i.body for j in ast.walk( b ) if isinstance( j, ast.If ) and 'status' in attrs_in( j.test ) and 'service' not in attrs_in( j.test ) ]
+        if len( tests ) != 1:
+            raise AnalysisError( '%s: %d status tests in the %s branch' % ( pqn, len( tests ), svc ))
+        art = p.args.args[1].arg if len( p.args.args ) > 1 else 'data'
+        got = accepted( tests[0].test, lambda v: { art + '.status': v } )
+        if got == want:
+            res.ok( src, tests[0], '%s ( %s ): data is produced under status %s' % ( pqn, svc, ', '.join( '0x%02X' % v for v in got )))
+        else:
+            res.bad( src, tests[0], '%s ( %s ): data is produced under status %s' % ( pqn, svc, ', '.join( '0x%02X' % v for v in got ) or 'none' ),
+                     'specified: %s - e.g. a Read Tag larger than one reply is answered 0x06 WITHOUT the first part of the data: an independent client computes its next offset from the octets received and fails' % ', '.join( '0x%02X' % v for v in want ), func=pqn )
+    return res
